@@ -354,11 +354,11 @@ def gen():
         b = build.replace("{src}", "src")
         out.append(C13_TMPL.format(name=name, build_src=b, probe=probe, unwind=K + 9))
         hs.append(dict(name=f"k_c13_{name}", fn=f"c13_{name}", props=["C13"], quick=name in ("take", "scan_initial", "last", "distinct_until_changed"), about=f"{name}: two subscriptions of clones over a cold create() source are equal; source runs once per subscription, never at build time"))
-    for name in ("take", "filter", "skip", "map", "take_while", "scan_initial", "finalize", "default_if_empty"):
+    for name in ("take", "filter", "skip", "map", "take_while", "scan_initial", "default_if_empty"):
         build, probe, model, quick = UNARY[name]
         b = build.replace("{src}", "src")
         out.append(HOT_TMPL.format(name=name, build_src=b, probe=probe, unwind=K + 9))
-        hs.append(dict(name=f"k_hot_{name}", fn=f"hot_{name}", props=["C01", "C02", "C17"], quick=name in ("take", "filter", "finalize"), about=f"{name} behind a create() subscriber handle: {K} events through cloned handles incl. after terminals, unsubscribe at a symbolic position, is_closed() sampled after every step"))
+        hs.append(dict(name=f"k_hot_{name}", fn=f"hot_{name}", props=["C01", "C02", "C17"], quick=name in ("take", "filter"), about=f"{name} behind a create() subscriber handle: {K} events through cloned handles incl. after terminals, unsubscribe at a symbolic position, is_closed() sampled after every step"))
     out.append(open(os.path.join(ROOT, "gen", "kani_static.rs")).read())
     hs += json.load(open(os.path.join(ROOT, "gen", "kani_static.json")))
     open(os.path.join(ROOT, "kani", "src", "gen.rs"), "w").write("\n".join(out))
